@@ -287,6 +287,16 @@ def run(ctx):
                 ok = ok and isinstance(ent, tuple) and ent[0] == "field" and isinstance(ent[1], tuple) and ent[1][0] == "downcast" and ent[1][2] == "Ok" and bool(fe) \
                     and strip_refs(fe[0]) == strip_refs(ent[1][1]) and mentions(call_args(fe[0])[1], lambda s: s == ("param", 2)) and strip_refs(call_args(fe[0])[0]) == ("param", 1) \
                     and mentions(call_args(t)[1], lambda s: s == ("param", 2)) and not mentions(call_args(t)[1], lambda s: is_call(s, FE))
+        if not backs and not ok:
+            # the same list built with .iter().map(|c| verify_checksum_internal(path, c.digest)).collect() (lib.accumulation: one item per element, in order)
+            rp = ret_paths(ps)
+            acc = accumulation(ctx, fn, rp[0].end[1], ps) if len(rp) == 1 else None
+            if acc is not None and acc["form"] == "collect":
+                it = strip_refs(acc["item"])
+                ok = isinstance(acc["src"], tuple) and acc["src"][0] == "field" and acc["src"][3] == "checksums" and is_call(it, VCI) and len(call_args(it)) == 3 \
+                    and mentions(call_args(it)[2], lambda s: s[0] == "field" and s[3] == "digest") and is_elem(call_args(it)[2]) \
+                    and mentions(call_args(it)[1], lambda s: s == ("param", 2)) and not is_elem(call_args(it)[1]) \
+                    and strip_refs(acc["src"][1]) == deval(call_args(it)[0])
         for p in backs:
             pu = [e for e in p.events if ev_is(e, "Vec::push")]
             nx = [e for e in p.events if e.kind == "call" and e.name.endswith("::next") and e.bb in body.loops]
